@@ -197,6 +197,9 @@ def heap_of(interp) -> Heap:
     return interp.state["heap"]
 
 
+_CURRENT = {"interp": None}
+
+
 # ------------------------------------------------------------------------------------------------ value wrappers
 class ValTerm:
     """an attribute value (z3 Val)"""
@@ -467,7 +470,14 @@ class LazyAtoms:
         return len(self.concrete(interp))
 
     def sym_contains(self, interp, x):
-        return interp.contains(self.concrete(interp), x)
+        # `x in descriptor.atoms` without deciding the class: position i counts iff i < len(class)
+        if not isinstance(self.owner.fields.get("atoms"), LazyAtoms):
+            return interp.contains(self.owner.fields["atoms"], x)
+        c = DescrS.dcls(self.t)
+        ln = z3.If(z3.Or(c == CLS["Tetrahedral"], c == CLS["SquarePlanar"]), 5, z3.If(c == CLS["Octahedral"], 7, 6))
+        xo = x if isinstance(x, OI) else oi_of(x)
+        xt = oi_term(xo)
+        return z3.Or(*[z3.And(i < ln, getattr(DescrS, f"a{i}")(self.t) == xt) for i in range(7)])
 
     def sym_to_tuple(self, interp):
         return self.concrete(interp)
@@ -630,6 +640,9 @@ class DictRef:
         return False
 
     def sym_truthy(self):
+        if self.t is D_CHG:
+            h = heap_of(_CURRENT["interp"])
+            return z3.Or(*[h.d_has(self.t, self.ref, c) for c in (FORMED, FLEETING, BROKEN)])
         raise OutOfSubset("truth value of a symbolic dict")
 
     def sym_len(self, interp):
@@ -912,6 +925,14 @@ class SetRef:
         raise OutOfSubset("== on symbolic sets")
 
 
+def note_ground(interp, t):
+    """terms at which the representation invariant is instantiated for feasibility pruning"""
+    if t.sort() == z3.IntSort():
+        interp.state.setdefault("ground_ints", []).append(t)
+    elif t.sort() == BondS:
+        interp.state.setdefault("ground_bonds", []).append(t)
+
+
 # ------------------------------------------------------------------------------------------------ bounded iteration
 def bounded_items(interp, d: DictRef):
     """Assume the dict holds exactly j <= K keys k1..kj (pairwise distinct); fork on j."""
@@ -919,6 +940,11 @@ def bounded_items(interp, d: DictRef):
     if d.t.ksort == ChgS:
         # a ChangeDict has at most the three Change members as keys: exact enumeration, no bound
         out = []
+        if interp.state.get("chg_one_slot"):
+            # stated bound of the bounded mode: at most one change per ChangeDict
+            interp.state["bounded_iteration"] = True
+            has = [h.d_has(d.t, d.ref, CHG[n]) for n in ("FORMED", "FLEETING", "BROKEN")]
+            interp.assume(z3.And(z3.Not(z3.And(has[0], has[1])), z3.Not(z3.And(has[0], has[2])), z3.Not(z3.And(has[1], has[2]))))
         for name in ("FORMED", "FLEETING", "BROKEN"):
             if interp.decide(h.d_has(d.t, d.ref, CHG[name])):
                 out.append((ChgMember(name), d.wrap(interp, h.d_get(d.t, d.ref, CHG[name]))))
@@ -934,6 +960,7 @@ def bounded_items(interp, d: DictRef):
             break
         k = z3.Const(f"it!{tag}_{j}", d.t.ksort)
         keys.append(k)
+        note_ground(interp, k)
     x = z3.Const(f"x!it{tag}", d.t.ksort)
     interp.assume(z3.ForAll([x], z3.Select(dom, x) == z3.Or(*[x == k for k in keys]) if keys else z3.Not(z3.Select(dom, x)), patterns=[z3.Select(dom, x)]))
     if len(keys) > 1:
@@ -964,6 +991,7 @@ def bounded_elements(interp, s: SetRef):
         if j == K or not interp.decide(more):
             break
         elems.append(z3.Const(f"el!{tag}_{j}", s.t.esort))
+        note_ground(interp, elems[-1])
     x = z3.Const(f"x!el{tag}", s.t.esort)
     interp.assume(z3.ForAll([x], z3.Select(arr, x) == (z3.Or(*[x == e for e in elems]) if elems else z3.BoolVal(False)), patterns=[z3.Select(arr, x)]))
     if len(elems) > 1:
